@@ -1,5 +1,5 @@
 SPECIFICATION Spec
-CONSTANTS NGenes = 3 MaxMin = 3
+CONSTANTS NGenes = 3 MaxMin = 3 Deep = FALSE
 INVARIANT OnlyQueryGenes
 INVARIANT OwnKept
 INVARIANT EnoughOwnMeansOnlyOwn
